@@ -591,7 +591,7 @@ Lemma ss_rp_lock_blobbers : forall c s a b v s', ss_rp_lock c s a b v = Some s' 
 Proof. unfold ss_rp_lock; intros. crush H; blob_base; blob_done. Qed.
 Lemma ss_rp_unlock_blobbers : forall c s a s', ss_rp_unlock c s a = Some s' -> st_blobbers s' = st_blobbers s.
 Proof. unfold ss_rp_unlock; intros. crush H; blob_base; blob_done. Qed.
-Lemma ss_add_assigner_blobbers : forall c s a n i t s', ss_add_assigner c s a n i t = Some s' -> st_blobbers s' = st_blobbers s.
+Lemma ss_add_assigner_blobbers : forall c s a n k i t s', ss_add_assigner c s a n k i t = Some s' -> st_blobbers s' = st_blobbers s.
 Proof. unfold ss_add_assigner; intros. crush H; blob_base; blob_done. Qed.
 
 Lemma ss_assign_ok : forall c chosen all bsz now bas all',
@@ -712,10 +712,10 @@ Proof.
     (rewrite owed_set_blobber_same; [lia|]); intros y Hy; cbn in Hy; rewrite Hx in Hy; inversion Hy; subst; reflexivity.
 Qed.
 
-Lemma ss_add_assigner_backed : forall c s a n i t s', ss_add_assigner c s a n i t = Some s' -> ss_backed c s s'.
+Lemma ss_add_assigner_backed : forall c s a n k i t s', ss_add_assigner c s a n k i t = Some s' -> ss_backed c s s'.
 Proof. unfold ss_add_assigner; intros. crush H; blob_base; unfold ss_backed, ss_liab, L_allocs, L_blobbers, L_validators, L_rpools, ss_wallet, ss_bal; cbn; lia. Qed.
 
-Lemma ss_add_assigner_rpools : forall c s a n i t s', ss_add_assigner c s a n i t = Some s' -> st_rpools s' = st_rpools s.
+Lemma ss_add_assigner_rpools : forall c s a n k i t s', ss_add_assigner c s a n k i t = Some s' -> st_rpools s' = st_rpools s.
 Proof. unfold ss_add_assigner; intros. crush H; blob_base; blob_done. Qed.
 
 (* ---------- free allocations: the read-pool part of the marker is credited without a transfer ---------- *)
@@ -990,8 +990,8 @@ Proof.
   - split; [eapply ss_upd_blobber_backed; eauto|]. split; auto.
     split; [eapply ss_upd_blobber_ok; eauto | eapply misc_rpools; [eapply ss_upd_blobber_misc; eauto | auto]].
   - split; [eapply ss_add_assigner_backed; eauto|]. split; auto.
-    split; [unfold st_ok; rewrite (ss_add_assigner_blobbers _ _ _ _ _ _ _ H); auto|].
-    unfold rp_nonneg. rewrite (ss_add_assigner_rpools _ _ _ _ _ _ _ H). exact Hrp.
+    split; [unfold st_ok; rewrite (ss_add_assigner_blobbers _ _ _ _ _ _ _ _ H); auto|].
+    unfold rp_nonneg. rewrite (ss_add_assigner_rpools _ _ _ _ _ _ _ _ H). exact Hrp.
   - destruct (ss_free_alloc_ledger _ _ _ _ _ _ _ _ _ _ _ _ Hc Hok Hrp H) as [Hl [_ [Hok' Hrp']]].
     rewrite Hsc in Hl. split; [unfold ss_backed; lia | auto].
 Qed.
